@@ -681,6 +681,14 @@ def cpmc_formula_siblings(ctx):
                 if base is not G0 or not ix:
                     return None
                 if cls == "uhf_cpmc":
+                    if len(ix) == 2:                     # green[s, a]: row a of spin block s
+                        s_, a_ = (strip_wrappers(y) for y in ix)
+                        ra = site_role(a_)
+                        if ra is None:
+                            return None
+                        if s_ is not spin_of[ra]:
+                            problems.append(f"{show(t, maxdepth=3)[:60]} addresses a spin block that does not belong to its site")
+                        return f"row({ra})"
                     if len(ix) != 3:
                         return None
                     s_, a_, b_ = (strip_wrappers(y) for y in ix)
